@@ -190,14 +190,36 @@ def check(run):
                 run.ok('R4', 'time-base', bs.norm, bs.loc(a.node), 'base assigned from %s in the same invocation' % rhs)
             else:
                 run.unrecognised('R4', 'time-base', bs.norm, bs.loc(a.node), 'time base assigned from %s: not a recognised idiom (now / max(prev, arrival))' % rhs)
-        rr = q.render(bs, a.site['args'][1] if a.site['k'] == 'call' else a.site['rhs'])
-        run.check('packet_size' in rr or ('buffer.size()' in rr and 'overhead' in rr), 'R4', 'serialisation-includes-overhead', bs.norm, bs.loc(a.node), 'serialisation time does not depend on payload+overhead: ' + rr[:100], 'depends on payload + overhead')
-    psz = [v for nn in bs.all_nodes() if nn['k'] == 'decl' for v in nn['vars'] if v.get('name') == 'packet_size']
-    if not psz:
-        run.broke('begin_send_next_packet: local packet_size not found (renamed?)')
-    for v in psz:
-        lf = q.linform(bs, v['init'])
-        run.check(lf == ({'p.buffer.size()': 1, 'p.overhead': 1}, 0), 'R4', 'size-measure', bs.norm, bs.loc(), 'packet_size is %s, not payload + overhead' % q.render(bs, v['init']), 'payload + overhead')
+        rhs = a.site['args'][1] if a.site['k'] == 'call' else a.site['rhs']
+        rr = q.render(bs, rhs)
+        # the size factor: some sub-expression (through const locals) is linear payload + overhead of the front packet
+        csub = q.const_local_subst(bs)
+        found = None
+        def front_measure(lf):
+            if lf is None or lf[1] != 0 or len(lf[0]) != 2 or set(lf[0].values()) != {1}:
+                return False
+            ks = sorted(lf[0])
+            return ks[0].endswith('buffer.size()') and ks[1].endswith('overhead') and ks[0].rsplit('.buffer.size()', 1)[0] == ks[1].rsplit('.overhead', 1)[0]
+        stack = [rhs]
+        seen_ids = set()
+        while stack:
+            x = stack.pop()
+            if not is_node(x) or id(x) in seen_ids:
+                continue
+            seen_ids.add(id(x))
+            if front_measure(q.linform(bs, x, csub)):
+                found = x
+                break
+            xs = q.strip_casts(x)
+            if is_node(xs) and xs['k'] == 'ref' and xs.get('did') in csub:
+                stack.append(csub[xs['did']])
+            from simlib import children
+            stack.extend(children(x))
+        run.check(found is not None, 'R4', 'serialisation-includes-overhead', bs.norm, bs.loc(a.node), 'serialisation time does not depend on payload + overhead of the packet: ' + rr[:100], 'multiplies by payload + overhead')
+        if found is not None:
+            who = sorted(q.linform(bs, found, csub)[0])[0].rsplit('.buffer.size()', 1)[0]
+            defs = [q.render(bs, v['init']) for nn in bs.all_nodes() if nn['k'] == 'decl' for v in nn['vars'] if v.get('name') == who]
+            run.check(who.startswith('m_queue.front()') or any('m_queue.front()' in d for d in defs), 'R4', 'size-measure', bs.norm, bs.loc(), 'the size used is not that of the front packet', 'size of the front packet')
     tw = [c for c in bs.calls() if (q.callee_name(c) or '').endswith('expires_at') and q.render(bs, c['args'][0]) == 'm_last_forward']
     run.check(bool(tw) and all(q.any_precedes(bs, [a.site for a in adds], c) for c in tw), 'R4', 'departure-timer', bs.norm, bs.loc(), 'the departure timer is not armed at m_last_forward after the serialisation time was added', 'expires_at(m_last_forward) after the +=')
     run.floor('R10', 4)
